@@ -144,6 +144,8 @@ EXEC += ["flush(unit=10, iostat=ios, iomsg=msg, err=10)", "entry e3(a, b) result
          "forall (i = 1:3) a(i) = i", "forall (i = 1:3, j = 1:3, i /= j) a(i, j) = 0", "where (a > 0) a = 0", "goto (10, 20), k", "go to (10, 20) k + 1", "inquire(10, exist=l)", "inquire(file=fn, size=k)",
          "stop 12345", "call s(*10)", "return k + 1", "x = c(1:2)", "a = b%c%d(1)%e", "p => f(x)", "x = .myun. y", "x = a .mybin. b .mybin. c"]
 EXEC += ["s = ck_'abc' // 1_'d'", "v = [integer ::]", "w = (/ real(8) :: /)"]
+EXEC += ["entry e6() result(r6)", "entry e7() bind(c, name='e_seven')", "entry e8(a) bind(c)", "entry e9() result(r9) bind(c)", "entry e10(*, a)"]
+SPEC += ["type :: tgb\ncontains\nprocedure :: ab\nprocedure :: cd\ngeneric :: g =>ab, cd\ngeneric, public :: operator(+)=>ab\ngeneric::h=>cd\nend type tgb"]
 IFACE = ["procedure f", "module procedure f", "module procedure f, g", "procedure :: f", "procedure :: f, g", "module procedure :: f", "subroutine s(a)\ninteger a\nend subroutine s",
          "function f(x)\nreal x\nend function f"]
 IFACE += ["function f1(x) result(r) bind(c)\nreal x, r\nend function f1", "function f2(x) bind(c, name='ff') result(r)\nreal x, r\nend function f2", "real function f3(x) result(r)\nreal x\nend function f3",
